@@ -62,7 +62,7 @@ func VerifC08_IPv4Zero() {
 }
 
 func VerifC08_IPv6() {
-	data := c08input(56, 64)
+	data := c08input(56, 60)
 	_ = new(IPv6).UnmarshalBinary(data)
 }
 
@@ -87,7 +87,7 @@ func VerifC08_Fragment() {
 }
 
 func VerifC08_Ethernet() {
-	data := c08input(48, 80)
+	data := c08input(48, 72)
 	_ = NewEthernet().UnmarshalBinary(data)
 }
 
